@@ -22,7 +22,7 @@ import (
 // default GC target a third of the run is collector work. Not a correctness knob.
 func init() { debug.SetGCPercent(400) }
 
-const slowdown = 12 // see the progress check in evalOnce
+const slowdown = 6 // see the progress check in evalOnce
 
 const minCompared = 3 // a case with fewer compared values on every output is "short" (inconclusive, not failed)
 
@@ -37,12 +37,14 @@ var mayReject = []string{"macro:adjacent", "macro:label-on-use", "macro:nested",
 type mode struct {
 	D6   bool // entry label not on the first instruction
 	Leak bool // a macro with mov-IO expanded in sections of different io modes
+	Fuzz bool // mutated text: the reference not reading it, or the assembler refusing it, is not judged
 }
 
 var (
 	modeMain      = mode{}
 	modeKnownD6   = mode{D6: true}
 	modeKnownLeak = mode{Leak: true}
+	modeFuzz      = mode{Fuzz: true}
 )
 
 // leakRepeats: the defect behind modeKnownLeak depends on the iteration order of a Go map inside the
@@ -166,6 +168,9 @@ func evalCase(c Case, m mode) (out pbt.Outcome) {
 	}()
 	rs, err := parseSource(c.Src)
 	if err != nil {
+		if m.Fuzz {
+			return pbt.Outcome{Excluded: "reference-does-not-read"}
+		}
 		return pbt.Outcome{Fail: pbt.Failf("harness:ref-rejects", "the reference does not read a generated source: %v", err)}
 	}
 	// features of every section (the passes process sections no CP runs, too)
@@ -179,6 +184,9 @@ func evalCase(c Case, m mode) (out pbt.Outcome) {
 		if !live[name] {
 			lab["dead-section"] = true
 			if _, _, err := rs.compile(name, true); err != nil {
+				if m.Fuzz {
+					return pbt.Outcome{Excluded: "reference-does-not-read"}
+				}
 				if !feat["dup-label"] {
 					return pbt.Outcome{Fail: pbt.Failf("harness:ref-rejects", "the reference does not read a generated source: %v", err)}
 				}
@@ -186,6 +194,9 @@ func evalCase(c Case, m mode) (out pbt.Outcome) {
 		}
 	}
 	net, err := rs.network()
+	if err != nil && m.Fuzz {
+		return pbt.Outcome{Excluded: "reference-does-not-read"}
+	}
 	if err != nil && !feat["dup-label"] {
 		return pbt.Outcome{Fail: pbt.Failf("harness:ref-rejects", "the reference does not read a generated source: %v", err)}
 	}
@@ -284,6 +295,9 @@ func evalOnce(c Case, m mode, rs *refSource, net *refNet, lab map[string]bool, r
 		if rejectable != "" {
 			lab["rejected:"+rejectable] = true
 			return pbt.Outcome{}
+		}
+		if m.Fuzz {
+			return pbt.Outcome{Excluded: "assembler-refuses"}
 		}
 		return pbt.Outcome{Fail: pbt.Failf("asm-rejects", "the assembler refuses a source of the main domain (%s): %v\n--- source ---\n%s", aerr.Phase, aerr.Err, c.Src)}
 	}
